@@ -330,7 +330,8 @@ class PercentFormatString:
                             yield from specifier.accept(pair.value, ctx)
                     else:
                         non_literals.append(pair.key)
-                keys_left = cs_map.keys() - seen_keys
+                # cs_map is in the order of the format string; keep that order in the message
+                keys_left = [key for key in cs_map if key not in seen_keys]
                 if keys_left and not non_literals:
                     yield f"No value specified for keys {', '.join(keys_left)}"
         else:
